@@ -102,8 +102,11 @@ class Scheduler(object):
         if self.aborting:
             raise SchedAbort()
         rec.pending = None
+        # the name is resolved now and no reference is kept: the code under
+        # test may rely on objects being freed (ids being reused)
         self.log.append(dict(ev='prim', th=rec.name, kind=op.kind,
-                             obj='', _o=op.obj))
+                             obj=self.name_of(op.obj)
+                             if op.obj is not None else ''))
 
     def enabled(self, rec):
         op = rec.pending
@@ -138,10 +141,6 @@ class Scheduler(object):
                 t.sem.release()
                 self._main.acquire()
         finally:
-            for e in self.log:
-                if '_o' in e:
-                    o = e.pop('_o')
-                    e['obj'] = self.name_of(o) if o is not None else ''
             self.blocked = [
                 dict(th=t.name, kind=t.pending.kind,
                      obj=self.name_of(t.pending.obj)
@@ -167,6 +166,7 @@ class Scheduler(object):
             def __init__(self):
                 self.owner = None
                 self.auto = s.new_auto('lock')
+                s.names.pop(id(self), None)     # the id may be a reused one
                 if s.new_lock_hook is not None:
                     s.new_lock_hook(self)
 
